@@ -121,3 +121,23 @@ func overflowCycle(stderr string) string {
 	sort.Strings(cyc)
 	return cyc[0]
 }
+
+// watchdogLoop names what the call was doing when the CPU watchdog fired, from the watchdog's dump of
+// all goroutines: in the goroutine that runs the call (the one below main.guardedCall) the
+// lexicographically smallest pdfcpu function that occurs at least 3 times in the top 60 frames (a
+// recursion), else its innermost pdfcpu frame. Only used to tell candidates of different loops apart
+// and in the violation text, never in a key.
+func watchdogLoop(stderr string) string {
+	i := strings.Index(stderr, "watchdog fired in ")
+	if i < 0 {
+		return "unknown"
+	}
+	for _, blk := range strings.Split(stderr[i:], "\n\n") {
+		j := strings.Index(blk, "goroutine ")
+		if j < 0 || !strings.Contains(blk, "main.guardedCall") {
+			continue
+		}
+		return overflowCycle(blk[j:] + "\n\n")
+	}
+	return "unknown"
+}
